@@ -45,4 +45,15 @@ let obytes (op : string) (args : n list list) : n list =
 (* optional-result oracle call (AEAD open etc.) *)
 let obytes_opt (op : string) (args : n list list) : n list option =
   let r = oracle (String.concat " " (op :: List.map hexs args)) in
-  if r = "ERR" then None else Some (unhex r)
+  if r = "ERR" then None
+  else if String.length r >= 2 && String.sub r 0 2 = "ok" then Some (unhex (String.sub r 2 (String.length r - 2)))
+  else Some (unhex r)
+(* oracle call with textual (non-hex) leading arguments, e.g. hash names, lengths *)
+let ocall (op : string) (targs : string list) (args : n list list) : n list =
+  let r = oracle (String.concat " " (op :: targs @ List.map hexs args)) in
+  if r = "ERR" then failwith ("oracle error on " ^ op) else unhex r
+let ocall_opt (op : string) (targs : string list) (args : n list list) : n list option =
+  let r = oracle (String.concat " " (op :: targs @ List.map hexs args)) in
+  if r = "ERR" then None
+  else if String.length r >= 2 && String.sub r 0 2 = "ok" then Some (unhex (String.sub r 2 (String.length r - 2)))
+  else Some (unhex r)
